@@ -552,6 +552,35 @@ def oracle_bytes(bs):
     return None
 
 
+def safe_repr(v):
+    try:
+        return repr(v)[:300]
+    except Exception as ex:  # noqa
+        return "<%s object whose repr raises %s>" % (type(v).__name__, type(ex).__name__)
+
+
+def depth_case(shape, d):
+    """None if load can decode what dump produced for this nesting, else a description (default recursion limit)"""
+    f = dict(NEST_SHAPES)[shape]
+    b = brine()
+    old_limit = sys.getrecursionlimit()
+    sys.setrecursionlimit(1000)
+    try:
+        v = nest(d, f)
+        try:
+            data = b.dump(v)
+        except RecursionError:
+            return None
+        try:
+            b.load(data)
+        except RecursionError:
+            return ("dumpable and dump() accept a %s nested %d deep (recursion limit 1000) but load() of those bytes raises "
+                    "RecursionError: a peer can send a value its receiver cannot decode" % (shape, d))
+        return None
+    finally:
+        sys.setrecursionlimit(old_limit)
+
+
 def describe(v):
     t = valtext.to_text(v)
     return t if len(t) < 4000 else t[:4000] + "..."
@@ -582,7 +611,7 @@ def oracle_search(ctx, corr, broken):
         if msg:
             t = describe(v)
             if best is None or len(t) < len(best[0]["value"]):
-                best = (dict(kind="input", side="encode", value=t, repr=repr(v)[:300]), msg,
+                best = (dict(kind="input", side="encode", value=t, repr=safe_repr(v)), msg,
                         "encode:" + msg.split(" raised")[0][:40])
                 if len(t) < 40:
                     break
@@ -592,6 +621,24 @@ def oracle_search(ctx, corr, broken):
         msg = oracle_bytes(bs)
         if msg:
             return dict(kind="input", side="decode", bytes=bs.hex()), msg, "decode"
+    # 3b. nesting: whatever dump() accepts, load() decodes (within a 10% margin of the deepest value dump accepts)
+    for shape, _f in NEST_SHAPES:
+        deepest = None
+        for d in range(50, 1000, 10):
+            old_limit = sys.getrecursionlimit()
+            sys.setrecursionlimit(1000)
+            try:
+                try:
+                    brine().dump(nest(d, _f))
+                    deepest = d
+                except RecursionError:
+                    break
+            finally:
+                sys.setrecursionlimit(old_limit)
+        for d in range(50, int(0.9 * (deepest or 0)), 10):
+            msg = depth_case(shape, d)
+            if msg:
+                return dict(kind="input", side="depth", shape=shape, depth=d), msg, "depth:load-needs-more-stack-than-dump"
     # 4. the same statement with assertions compiled away (`python -O`): code that only works while `assert`
     #    statements execute is a failing configuration, not a failing value
     found = optimised_oracle([describe(v) for v in boundary_values()
@@ -644,6 +691,9 @@ def replay(case):
         out["implementation"] = st if st != "ok" else "ok " + valtext.canon(v)
         out["oracle"] = oracle_bytes(bs) or "holds"
         out["model"] = run_driver(["brine dec " + bs.hex()])[0]
+    elif case.get("side") == "depth":
+        out["oracle"] = depth_case(case["shape"], case["depth"]) or "holds"
+        out["model"] = "the model has no recursion limit: load(dump v) = v (theorem load_dump)"
     elif case.get("interpreter_flags") == "-O":
         out["oracle_under_python_-O"] = optimised_oracle([case["value"]]) or "holds"
         v = valtext.from_text(case["value"])
